@@ -286,27 +286,53 @@ fn run_c05(ctx: &mut Ctx) {
             }
         }
     }
-    // W4: hostile amounts in every native type that can hold them, boundary lengths
+    // W4: hostile amounts in every native type that can hold them, boundary lengths, the full value lattice
+    // (alternating all-ones / zero words, zero low words under a set top word, ...)
     for ta in 0..NTYPES {
         let w = TYPE_WORD_BITS[ta];
-        for n in gen::boundary_lens(w, 8, TYPE_FIXED_CAP[ta], gen::dyn_max(tier)) {
-            let vals = gen::lattice_small(n, w, &mut rng);
+        let mut lens = gen::boundary_lens(w, 8, TYPE_FIXED_CAP[ta], gen::dyn_max(tier));
+        if TYPE_FIXED_CAP[ta].is_none() {
+            lens.extend(gen::long_lens(tier));
+        }
+        for n in lens {
+            let long = n > 300;
+            let vals = if long { gen::lattice_small(n, w, &mut rng) } else { gen::lattice(n, w, &mut rng) };
             if !ctx.mine() {
                 continue;
             }
+            let mut ks = gen::hostile_amounts(n, w);
+            // multiples of the word size below n and their neighbours (all of them up to 300 bits, a spread beyond)
+            let mut mults: Vec<usize> = (1..=(n / w + 1)).map(|i| i * w).collect();
+            if long {
+                let l = mults.len();
+                mults = vec![mults[0], mults[1], mults[l / 3], mults[l / 2], mults[l - 3], mults[l - 2], mults[l - 1]];
+            }
+            for m in mults {
+                ks.extend([m as u128 - 1, m as u128, m as u128 + 1]);
+            }
+            ks.sort();
+            ks.dedup();
             for va in &vals {
                 let a = Spec::new(ta, va.clone(), via_for(ta, &mut rng));
-                for k in gen::hostile_amounts(n, w) {
-                    for uty in utys_holding(k) {
-                        for left in [true, false] {
-                            idx += 1;
-                            // all forms for the dynamic type (separate by-reference bodies), rotating otherwise
-                            if ta == IDX_BVD || tier == Tier::Thorough {
-                                for form in ALL_FORMS {
-                                    judge(ctx, &shift_case(&a, uty.make(k), left, form), "W4-hostile-shift-amounts");
+                for k in &ks {
+                    let utys = utys_holding(*k);
+                    for left in [true, false] {
+                        idx += 1;
+                        // all native types and forms where the amount is rare, a rotating one otherwise
+                        if *k >= 1u128 << 32 || tier == Tier::Thorough {
+                            for uty in &utys {
+                                let forms: Vec<Form> = if ta == IDX_BVD { ALL_FORMS.to_vec() } else { vec![ALL_FORMS[idx % 6]] };
+                                for form in forms {
+                                    judge(ctx, &shift_case(&a, uty.make(*k), left, form), "W4-hostile-shift-amounts");
                                 }
-                            } else {
-                                judge(ctx, &shift_case(&a, uty.make(k), left, ALL_FORMS[idx % 6]), "W4-hostile-shift-amounts");
+                            }
+                        } else {
+                            let uty = utys[idx % utys.len()];
+                            let form = ALL_FORMS[(idx / 7) % 6];
+                            judge(ctx, &shift_case(&a, uty.make(*k), left, form), "W4-hostile-shift-amounts");
+                            if ta == IDX_BVD {
+                                // the by-reference bodies of the dynamic type are separate code
+                                judge(ctx, &shift_case(&a, uty.make(*k), left, if idx % 2 == 0 { Form::RV } else { Form::RR }), "W4-hostile-shift-amounts");
                             }
                         }
                     }
@@ -332,7 +358,11 @@ fn run_c05(ctx: &mut Ctx) {
                 }
             }
         }
-        for n in gen::boundary_lens(w, 8, TYPE_FIXED_CAP[ta], gen::dyn_max(tier)) {
+        let mut lens = gen::boundary_lens(w, 8, TYPE_FIXED_CAP[ta], gen::dyn_max(tier));
+        if TYPE_FIXED_CAP[ta].is_none() {
+            lens.extend(gen::long_lens(tier));
+        }
+        for n in lens {
             let vals = gen::lattice(n, w, &mut rng);
             if !ctx.mine() {
                 continue;
@@ -387,13 +417,16 @@ fn run_c06(ctx: &mut Ctx) {
     for ta in 0..NTYPES {
         let w = TYPE_WORD_BITS[ta];
         let limit = TYPE_FIXED_CAP[ta].unwrap_or(tier.pick(70, 200, 260));
-        let lens: Vec<usize> = if tier == Tier::Thorough { (0..=limit).collect() } else { gen::boundary_lens(w, 8, TYPE_FIXED_CAP[ta], limit) };
+        let mut lens: Vec<usize> = if tier == Tier::Thorough { (0..=limit).collect() } else { gen::boundary_lens(w, 8, TYPE_FIXED_CAP[ta], limit) };
+        if TYPE_FIXED_CAP[ta].is_none() {
+            lens.extend(gen::long_lens(tier));
+        }
         for n in lens {
-            let vals = gen::lattice(n, w, &mut rng);
+            let vals = if n > 300 { gen::lattice_small(n, w, &mut rng) } else { gen::lattice(n, w, &mut rng) };
             if !ctx.mine() {
                 continue;
             }
-            let ks: Vec<usize> = if tier == Tier::Thorough || n <= 40 {
+            let ks: Vec<usize> = if (tier == Tier::Thorough && n <= 300) || n <= 40 {
                 (0..=n).collect()
             } else {
                 let mut v: Vec<usize> = gen::boundary_lens(w, 8, Some(n), n);
